@@ -28,9 +28,18 @@ Definition line_step (ltb : byte) (buf : bytes) (pos en : nat) : option (nat * n
 (* lines::count *)
 Definition count_lt (ltb : byte) (l : bytes) : nat := length (filter (N.eqb ltb) l).
 
-(* lines::without_terminator *)
+(* lines::without_terminator: in CRLF mode the final "\n" and a "\r" right before it are removed;
+   otherwise the terminator bytes if the line ends with them *)
 Definition without_terminator (lt : lineterm) (l : bytes) : bytes :=
-  if is_suffix_of (lt_bytes lt) l then firstn (length l - length (lt_bytes lt)) l else l.
+  match lt with
+  | LTCrlf =>
+    match rev l with
+    | 10%N :: r => match r with 13%N :: r' => rev r' | _ => rev r end
+    | _ => l
+    end
+  | LTByte _ =>
+    if is_suffix_of (lt_bytes lt) l then firstn (length l - length (lt_bytes lt)) l else l
+  end.
 
 (* lines::locate(bytes, line_term, range) *)
 Definition locate (ltb : byte) (buf : bytes) (rs re : nat) : nat * nat :=
